@@ -64,7 +64,24 @@ var untrustedIPs = []string{"9.9.9.9", "203.0.113.7", "8.8.8.8", "2001:4860::888
 var garbage = []string{"", " ", "unknown", "1.2.3", "1.2.3.4:80", "[::1]:80", "fe80::1%eth0", "999.1.1.1", "a,b", "10.0.0.1 x", "\t10.0.0.2\t", " 9.9.9.9 ", "0x7f.1", "::", "1.2.3.4.5", "_hidden", "127.1", "010.0.0.1", "１.２.３.４"}
 var hdrNames = []string{"X-Forwarded-For", "X-Real-IP", "CF-Connecting-IP", "Fastly-Client-IP", "True-Client-IP"}
 
+// uniPad wraps an item in white space of every kind strings.TrimSpace knows, and in look-alikes it must
+// NOT trim (lone Latin-1 bytes, zero-width space, BOM, truncated sequences).
+func uniPad(r *hx.Rand, s string) string {
+	pads := []string{"\u00a0", "\u0085", "\u1680", "\u2000", "\u2003", "\u200a", "\u2028", "\u2029", "\u202f", "\u205f", "\u3000",
+		" ", "\t", "\r", "\v", "\f", "\xa0", "\x85", "\u200b", "\ufeff", "\xc2", "\xe2\x80", "\xe3\x80\x80\x80"}
+	if r.Chance(1, 2) {
+		s = hx.Pick(r, pads) + s
+	}
+	if r.Chance(1, 2) {
+		s = s + hx.Pick(r, pads)
+	}
+	return s
+}
+
 func genItem(r *hx.Rand) string {
+	if r.Chance(1, 12) {
+		return uniPad(r, genItem(r))
+	}
 	switch r.Intn(10) {
 	case 0, 1, 2:
 		return hx.Pick(r, trustedIPs)
@@ -88,7 +105,7 @@ func genXFF(r *hx.Rand) string {
 	for i := range parts {
 		parts[i] = genItem(r)
 	}
-	seps := []string{",", ", ", " , ", ",  ", ",,", ", ,"}
+	seps := []string{",", ", ", " , ", ",  ", ",,", ", ,", ",\u00a0", "\u2003,\u3000", ",\u0085 ", " \t,\v", ",\xa0", ",\x85", ",\u200b", "\ufeff,", ",\xc2", ",\xe2\x80"}
 	var b strings.Builder
 	for i, p := range parts {
 		if i > 0 {
